@@ -206,7 +206,7 @@ Proof.
 Qed.
 
 (* ---- C03's row facts on every step of the whole simulation (the limits are the consist's own) ---- *)
-From AltProofs Require Import BrakingP.
+From AltProofs Require Import TrainStepP BrakingP.
 
 Theorem sl_full_step_limit_target (e : Env (F:=R)) pts fmax (s s'' : SLStateR) (c c' : ConsistR) :
   Forall pt_ok pts -> sl_full_step e pts fmax (s, c) = Ok (s'', c') ->
@@ -230,4 +230,37 @@ Proof.
   unfold sl_solve_step in Hs. apply bind_ok in Hs. destruct Hs as ([s1 ax] & Hs & Hq). inversion Hq; subst s1.
   exists c2, ax. split; [exact Hc2|]. split; [exists s'; auto|].
   intros Hb'. subst s''. exact (step_speed_le_target _ _ _ _ _ _ Hs Hdt Hm Hb').
+Qed.
+
+(* ---- SetSpeedTrainSim::walk: a run of exactly (len - i0) whole steps when the counter starts at i0 <= len ---- *)
+Lemma ss_full_step_counter (e : Env (F:=R)) times speeds fmax st cache (c c' : ConsistR) st'' cache' :
+  ss_full_step e times speeds fmax ((st, cache), c) = Ok ((st'', cache'), c') ->
+  k_i (ts_k st'') = S (k_i (ts_k st)).
+Proof.
+  intros H. destruct (ss_full_step_decomposes _ _ _ _ _ _ _ _ _ _ H) as (st' & c2 & t_i & t_p & _ & _ & _ & Hs & Hb & _).
+  subst st''. apply ss_solve_step_facts in Hs.
+  destruct Hs as (_ & _ & _ & _ & _ & _ & _ & _ & _ & _ & _ & _ & _ & Fi & _).
+  unfold bump_i. cbn [ts_k k_i]. rewrite Fi. reflexivity.
+Qed.
+
+Theorem ss_full_walk_is_run (e : Env (F:=R)) times speeds fmax : forall fuel x x',
+  ss_full_walk fuel e times speeds fmax x = Ok x' ->
+  exists n, (n <= fuel)%nat /\ ss_full_run n e times speeds fmax x = Ok x' /\
+    (length times <= k_i (ts_k (fst (fst x'))))%nat /\
+    k_i (ts_k (fst (fst x'))) = (k_i (ts_k (fst (fst x))) + n)%nat /\
+    (1 <= n -> k_i (ts_k (fst (fst x'))) = length times)%nat.
+Proof.
+  induction fuel as [|f IH]; intros x x' H; cbn [ss_full_walk] in H.
+  - destruct (Nat.ltb_spec (k_i (ts_k (fst (fst x)))) (length times)) as [Hl|Hl]; [discriminate|].
+    inversion H; subst. exists 0%nat. repeat split; auto; lia.
+  - destruct (Nat.ltb_spec (k_i (ts_k (fst (fst x)))) (length times)) as [Hl|Hl].
+    + apply bind_ok in H. destruct H as (x1 & Hs & Hw).
+      destruct (IH _ _ Hw) as (n & Hn & Hrun & Hend & Hcnt & Hex).
+      destruct x as [[st cache] c]. destruct x1 as [[st1 cache1] c1].
+      pose proof (ss_full_step_counter _ _ _ _ _ _ _ _ _ _ Hs) as Hc. cbn [fst] in *.
+      exists (S n). split; [lia|]. split; [cbn [ss_full_run]; rewrite Hs; exact Hrun|]. split; [exact Hend|].
+      split; [lia|]. intros _. destruct n as [|n'].
+      * cbn [ss_full_run] in Hrun. inversion Hrun; subst. cbn [fst] in *. lia.
+      * apply Hex. lia.
+    + inversion H; subst. exists 0%nat. repeat split; auto; lia.
 Qed.
